@@ -695,6 +695,9 @@ def show(t):
     return str(t)
 
 
+LAMBDAS = []      # (Lambda node, env, store, builder) of every ('lambda', i, params) term built in this process
+
+
 class TermBuilder(object):
     """AST expression -> term, with forward-substituted locals (`env`) and a store for self.config / self.<attr>."""
 
@@ -792,9 +795,18 @@ class TermBuilder(object):
                 vals.extend(t[1] if t[0] == kind else [t])
             return ('and' if isinstance(e.op, ast.And) else 'or', tuple(vals))
         if isinstance(e, ast.Call):
-            if any(isinstance(a, ast.Starred) for a in e.args) or any(k.arg is None for k in e.keywords):
+            if any(k.arg is None for k in e.keywords):
                 return ('opaque', 'call:' + short(e, 60))
-            args = tuple(b(a) for a in e.args)
+            arglist = []
+            for a in e.args:
+                if isinstance(a, ast.Starred):
+                    st = b(a.value)
+                    if st[0] not in ('tuple', 'list'):
+                        return ('opaque', 'call:' + short(e, 60))
+                    arglist.extend(st[1])            # f(*(a, b, c)) == f(a, b, c)
+                else:
+                    arglist.append(b(a))
+            args = tuple(arglist)
             kwargs = tuple(sorted((k.arg, b(k.value)) for k in e.keywords))
             f = e.func
             if isinstance(f, ast.Attribute):
@@ -812,6 +824,11 @@ class TermBuilder(object):
             return ('tuple' if isinstance(e, ast.Tuple) else 'list', tuple(b(x) for x in e.elts))
         if isinstance(e, ast.IfExp):
             return ('ifexp', b(e.test), b(e.body), b(e.orelse))
+        if isinstance(e, ast.Dict) and all(k is not None for k in e.keys):
+            return ('dict', tuple((b(k), b(v)) for k, v in zip(e.keys, e.values)))
+        if isinstance(e, ast.Lambda) and not (e.args.vararg or e.args.kwarg or e.args.kwonlyargs or e.args.defaults):
+            LAMBDAS.append((e, dict(env), dict(store), self))
+            return ('lambda', len(LAMBDAS) - 1, tuple(a.arg for a in e.args.posonlyargs + e.args.args))
         if isinstance(e, ast.JoinedStr):
             # f'..{a}..{b}' == '..{}..{}'.format(a, b) when no conversion / format spec is used
             template, args = '', []
@@ -897,6 +914,9 @@ def sym_exec(idx, fi, stmts=None, env=None, store=None, loops='error', max_paths
                 continue
             if isinstance(s, ast.Pass):
                 continue
+            if isinstance(s, (ast.Continue, ast.Break)):
+                out.append(SPath(guards, 'continue' if isinstance(s, ast.Continue) else 'break', None, None, s, store, env, effects, closures))
+                return
             if isinstance(s, ast.Return):
                 val = tb.build(s.value, env, store) if s.value is not None else ('none',)
                 out.append(SPath(guards, 'ret', val, None, s, store, env, effects, closures))
@@ -1993,6 +2013,20 @@ class _Unknown(object):
 UNK = _Unknown()
 
 
+class _Callable(object):
+    def __init__(self, term):
+        self.term = term
+
+    def __eq__(self, o):
+        return isinstance(o, _Callable) and o.term == self.term
+
+    def __hash__(self):
+        return hash(self.term)
+
+    def __bool__(self):
+        return True
+
+
 def enum_eval(t, asg):
     """Value of a term under an assignment of configuration keys (python values); UNK when data-dependent."""
     BUDGET.tick()
@@ -2005,6 +2039,8 @@ def enum_eval(t, asg):
         return int(t[1]) if t[1].denominator == 1 else t[1]
     if k == 'none':
         return None
+    if k in ('lambda', 'ext', 'dict'):
+        return _Callable(t)              # a definite non-None object (only `is None` / truthiness can be decided)
     if k == 'cfg':
         return asg.get(t[1], UNK)
     if k in ('list', 'tuple'):
@@ -2070,3 +2106,75 @@ def enum_store(path, asg):
         if k[0] == 'cfg':
             new[k[1]] = enum_eval(v, asg)
     return new
+
+
+
+# ================================================== partial evaluation under an option assignment
+def specialise(idx, fi, t, asg, depth=0):
+    """Partial evaluation of a term under an assignment of configuration options: class-level dispatch tables
+    (`self._table.get(option)`), `{...}.get(option)`, calls of the selected lambda / numpy function, and
+    conditional expressions whose test is decided.  Everything else is rebuilt unchanged."""
+    BUDGET.tick()
+    if depth > 12 or not isinstance(t, tuple) or not t or not isinstance(t[0], str):
+        return t
+    sp = lambda x: specialise(idx, fi, x, asg, depth + 1)     # noqa: E731
+    k = t[0]
+    if k == 'attr' and t[1] == ('self',):
+        owner = fi
+        while owner.outer is not None:
+            owner = owner.outer
+        if owner.cls is not None:
+            holder, node = idx.lookup_attr(owner.cls, t[2])
+            if node is not None and isinstance(node, (ast.Dict, ast.Tuple, ast.List, ast.Constant)):
+                anyfi = next(iter(holder.methods.values()), None)
+                if anyfi is not None:
+                    return sp(TermBuilder(idx, anyfi).build(node, {}))
+        return t
+    if k == 'ifexp':
+        c = enum_eval(sp(t[1]), asg)
+        if c is not UNK:
+            return sp(t[2] if c else t[3])
+        return ('ifexp', sp(t[1]), sp(t[2]), sp(t[3]))
+    if k == 'meth':
+        recv = sp(t[1])
+        args = tuple(sp(a) for a in t[3])
+        kwargs = tuple((n, sp(v)) for n, v in t[4])
+        if recv[0] == 'dict' and t[2] == 'get' and 1 <= len(args) <= 2 and not kwargs:
+            key = enum_eval(args[0], asg)
+            if key is not UNK:
+                for kt, vt in recv[1]:
+                    kv = enum_eval(kt, asg)
+                    if kv is UNK:
+                        return ('meth', recv, t[2], args, kwargs)
+                    if kv == key and type(kv) is type(key):
+                        return vt
+                return args[1] if len(args) == 2 else ('none',)
+        if t[2] == '__call__' and recv[0] == 'lambda' and len(recv[2]) == len(args) and not kwargs:
+            node, env, store, builder = LAMBDAS[recv[1]]
+            env2 = dict(env)
+            env2.update(zip(recv[2], args))
+            return sp(builder.build(node.body, env2, store))
+        if t[2] == '__call__' and recv[0] == 'ext':
+            return ('call', recv[1], args, kwargs)
+        return ('meth', recv, t[2], args, kwargs)
+    if k == 'index':
+        base, i = sp(t[1]), sp(t[2])
+        if base[0] == 'dict':
+            key = enum_eval(i, asg)
+            if key is not UNK:
+                for kt, vt in base[1]:
+                    kv = enum_eval(kt, asg)
+                    if kv is not UNK and kv == key and type(kv) is type(key):
+                        return vt
+        return ('index', base, i)
+    if k == 'call':
+        return ('call', t[1], tuple(sp(a) for a in t[2]), tuple((n, sp(v)) for n, v in t[3]))
+    if k in ('and', 'or', 'tuple', 'list'):
+        return (k, tuple(sp(x) for x in t[1]))
+    if k == 'cmp':
+        return ('cmp', t[1], sp(t[2]), sp(t[3]))
+    if k in ('add', 'sub', 'mul', 'div', 'pow', 'mod', 'floordiv', 'matmul', 'neg', 'not'):
+        return (k,) + tuple(sp(x) for x in t[1:])
+    if k == 'attr':
+        return ('attr', sp(t[1]), t[2])
+    return t
